@@ -39,9 +39,16 @@ def shaped(g):
             for ptr in ((True, True), (True, False), (False, True)):
                 out.append(("shadow-chain-%s-%s" % (side, order), mapgen.shadow_chain(side, order, ptr)))
     # multi-type runs: a companion type with a mapper is processed first; the observed type has none and must not see its methods
-    for dis in (0.0, 1.0, 1.0):
+    for dis in (0.0, 1.0, 1.0, 0.0, 1.0):
         sp = g.pair(kinds=["none", "misconv", "conv", "same"], names=["ident"], n=(4, 6), embeds=0.3, func_over=0.0, mapper_idle=0.0)
         out.append(("companion-first", mapgen.add_companion(g.rng, sp, disabled=dis)))
+    # multi-type runs with -to and a -type list that is NOT in lexicographic order (seeded change C05-11): pairs stay positional
+    for k in range(3):
+        sp = g.pair(kinds=["same", "conv", "none"], names=["ident"], n=(4, 6), embeds=0.3, func_over=0.0, mapper_idle=0.0)
+        mapgen.add_companion(g.rng, sp, disabled=0.5)
+        if sp.get("companion"):
+            sp["companion"].update(name="Zcomp", to=True, mode="list")
+        out.append(("multi-type-unsorted-with-to", sp))
     out.append(("universe-types", g.pair(kinds=["same", "oneway", "none"], names=["ident"], n=(5, 6))))
     # the four slice-of-struct shapes ([]T / []*T on either side), both helper types; observed with a nil element at the first,
     # middle and last position (seeded change C05-6): the result keeps its length, the other elements their index
@@ -64,6 +71,16 @@ def shaped(g):
     for side in ("src", "dest"):
         out.append(("field-like-embed-" + side, g.pair(n=(2, 4), embeds=0.5, field_like_embed=1.0, field_like_embed_side=side, diamond=0.0, selfembed=0.0,
                                                        embed_tag=0.0, kinds=["same", "conv"], names=["ident"])))
+    # nested struct pairs with IDENTICAL layouts (mutually convertible Go types; the nested source struct leaves `Hid` out): mapped
+    # recursively, never converted - value<->value, pointer<->pointer, mixed, slices (seeded change C05-12); observed: `Hid` does
+    # not arrive and a pointer result does not alias its source (to:nested / from:nested)
+    T, D = mapgen.SRC_TWIN, mapgen.DEST_TWIN
+    for a, b in ((T, D), (mapgen.P(T), mapgen.P(D)), (mapgen.P(T), D), (T, mapgen.P(D)), (mapgen.SL(T), mapgen.SL(D)), (mapgen.SL(mapgen.P(T)), mapgen.SL(mapgen.P(D)))):
+        out.append(("twin-structs", mapgen.mk_spec([mapgen.F("Main", a), mapgen.F("Name", mapgen.STR)], [mapgen.F("Main", b), mapgen.F("Name", mapgen.STR)])))
+    # one name at three depths, every declaration order of the depths
+    import itertools
+    for k, order in enumerate(itertools.permutations((1, 2, 3))):
+        out.append(("shadow-triple-" + "".join(map(str, order)), mapgen.shadow_triple("src" if k % 2 else "dest", order, True, k % 3 == 0)))
     # the same struct type embedded twice at different depths: the shallower occurrence is the one that is mapped
     for side in ("src", "dest"):
         out.append(("embedded-twice-" + side, g.pair(embeds=1.0, depth2=1.0, deep=0.95, diamond=1.0, diamond_side=side, selfembed=0.0,
@@ -111,7 +128,7 @@ def gen_cases(ctx):
             o = {"skip_shadow": 1.0, "embeds": 1.0}
         elif r < 0.30:
             o = {"manual": 1.0}
-        sp = g.pair(**o)
+        sp = g.pair(**dict(o, twins=0.3))
         if ctx.rng.random() < 0.25:
             mapgen.add_companion(ctx.rng, sp)
         c = mapgen.make_case("r%d" % i, sp, roundtrip=True, masks=mapgen.part_masks(mapgen.side_struct(sp, "src")),
